@@ -21,7 +21,11 @@ func TestMain(m *testing.M) {
 	// thousands of such lines would bury the results. Process-global, set once.
 	logging.SetDefaultHandler(slog.DiscardHandler)
 	stats.Describe("exploration",
-		"A case is a schedule run against a fresh eventbus.NewBus() inside a synctest bubble: 3 event types (each stateful or not), 1-4 emitters "+
+		"A case is a schedule run against a fresh bus inside a synctest bubble; the bus is built either plain, eventbus.NewBus(), or with a metrics tracer, "+
+			"eventbus.NewBus(eventbus.WithMetricsTracer(t)) with t a tracer that only counts its calls (half of the generated schedules each; both enumerations below run "+
+			"every shape on both): the statement speaks of the event bus however it was constructed, so every oracle applies to both alike and the tracer's "+
+			"counts are used for coverage labels only (bus:metrics-tracer:events-received-by:<kind>/buf:<n> = a subscription of that kind and BufSize on a bus with a "+
+			"tracer received events). 3 event types (each stateful or not), 1-4 emitters "+
 			"(each opened with or without eventbus.Stateful: by default as its type says, but where a type has several emitters each of them may disagree - "+
 			"stateful then plain, plain then stateful, two against one, the first one closed before the next is opened; emitters are opened before step 0 in "+
 			"generated number and order or by a step in the middle of the history, after events of the type; TestStatefulEmittersDisagree concentrates on "+
@@ -168,7 +172,8 @@ func genBad(rt *rapid.T, p profile, live []int) badSpec {
 }
 
 func genScenario(rt *rapid.T, p profile) *scenario {
-	sc := &scenario{}
+	// how the bus is built: plain, or with a (counting) metrics tracer
+	sc := &scenario{Tracer: rapid.Bool().Draw(rt, "metricsTracer")}
 	var typeStateful [nTypes]bool
 	for t := 0; t < nTypes; t++ {
 		typeStateful[t] = p.allStateful || rapid.Bool().Draw(rt, "stateful")
@@ -363,7 +368,7 @@ func genScenario(rt *rapid.T, p profile) *scenario {
 
 func specString(sc *scenario) string {
 	var b strings.Builder
-	fmt.Fprintf(&b, "st=%v/%v w=%d em=%v pre=%d/%d", sc.Stateful, sc.EmStateful, sc.Workers, sc.Ems, sc.PreEms, sc.PreSubs)
+	fmt.Fprintf(&b, "tracer=%v st=%v/%v w=%d em=%v pre=%d/%d", sc.Tracer, sc.Stateful, sc.EmStateful, sc.Workers, sc.Ems, sc.PreEms, sc.PreSubs)
 	for _, s := range sc.Subs {
 		fmt.Fprintf(&b, " %s%v/%d/%v", s.Kind, s.Types, s.Buf, s.Eager)
 	}
@@ -464,7 +469,8 @@ func TestStatefulEmittersDisagree(t *testing.T) { propSchedules(t, profEmitters,
 // cap+2 events that must stall after exactly cap of them, a stall shorter or longer than
 // the 1 s slow-consumer warning, resolved by resume / Close / double Close / a grant of one
 // read followed by Close; without a stateful type, and with one and a retained event where
-// both emitters of the type, only the first or only the second one asked for Stateful.
+// both emitters of the type, only the first or only the second one asked for Stateful; each
+// shape on a plain bus and on a bus built with a metrics tracer.
 func TestBlockedEmitEnumerated(t *testing.T) {
 	name := t.Name()
 	// one rapid "case" per shard carries the whole (sharded) enumeration, so that the
@@ -484,11 +490,14 @@ func enumerateBlocked(t *testing.T, rt *rapid.T, name string) {
 					// is to be remembered); in the last three the type is stateful
 					for _, stMode := range []string{"none", "both", "first-only", "second-only"} {
 						stateful := stMode != "none"
-						for _, withEager := range []bool{false, true} {
+						// next to an eager subscriber or not; on a plain bus or on one built with a
+						// metrics tracer
+						for combo := 0; combo < 4; combo++ {
+							withEager, tracer := combo&1 != 0, combo&2 != 0
 							idx++
 							// scattered over the shards (the plain index would give a shard the same
-							// few (stMode, withEager) combinations throughout: the inner loops have 8
-							// combinations, the shard counts are 4 and 16)
+							// few (stMode, withEager, tracer) combinations throughout: the inner loops
+							// have 16 combinations, the shard counts are 4 and 16)
 							if !hx.Mine(int((uint32(idx) * 2654435761) >> 7)) {
 								continue
 							}
@@ -499,7 +508,7 @@ func enumerateBlocked(t *testing.T, rt *rapid.T, name string) {
 							case "multi":
 								sp.Types = []int{1, 0}
 							}
-							sc := &scenario{Workers: 2, Ems: []int{0, 0}, Subs: []subSpec{sp}, PreEms: 2, PreSubs: 0}
+							sc := &scenario{Tracer: tracer, Workers: 2, Ems: []int{0, 0}, Subs: []subSpec{sp}, PreEms: 2, PreSubs: 0}
 							sc.Stateful[0] = stateful
 							sc.EmStateful = []bool{stMode == "both" || stMode == "first-only", stMode == "both" || stMode == "second-only"}
 							if withEager {
@@ -538,13 +547,13 @@ func enumerateBlocked(t *testing.T, rt *rapid.T, name string) {
 									step{GapMs: 1, Acts: []action{{K: "resume", S: 0}}})
 							}
 							sc.FinalBursts = []action{{K: "emit", W: 0, E: 0, N: 2}, {K: "emit", W: 1, E: 1, N: 2}}
-							res := bubbleRun(t, rt, sc, fmt.Sprintf("kind=%s buf=%d gap=%d resolve=%s stateful=%v withEager=%v: ", kind, buf, gap, resolve, stMode, withEager))
+							res := bubbleRun(t, rt, sc, fmt.Sprintf("kind=%s buf=%d gap=%d resolve=%s stateful=%v withEager=%v tracer=%v: ", kind, buf, gap, resolve, stMode, withEager, tracer))
 							stats.CaseEnumerated(name, res.nontrivial, res.labels...)
 							if stats.WantSample(name) {
 								stats.Sample(name, map[string]any{"scenario": sc, "executed": res.trace, "labels": res.labels})
 							}
 							if res.failure != "" {
-								rt.Fatalf("kind=%s buf=%d gap=%d resolve=%s stateful=%v withEager=%v: %s\nexecuted: %s", kind, buf, gap, resolve, stMode, withEager, res.failure, res.trace)
+								rt.Fatalf("kind=%s buf=%d gap=%d resolve=%s stateful=%v withEager=%v tracer=%v: %s\nexecuted: %s", kind, buf, gap, resolve, stMode, withEager, tracer, res.failure, res.trace)
 							}
 							// the enumeration is only meaningful if the stall really happened
 							stalled := false
@@ -569,7 +578,8 @@ func enumerateBlocked(t *testing.T, rt *rapid.T, name string) {
 // every position of every list of 0-3 well-formed types (2 orders), option errors for typed,
 // multi-type and wildcard Subscribe and for Emitter (option order, Stateful present or not),
 // Emitter for non-pointers and the wildcard; every BufSize; types stateful or not; the call
-// made once or three times at one instant. Around the call: one emitter per type that has
+// made once or three times at one instant; on a plain bus or on one built with a metrics
+// tracer. Around the call: one emitter per type that has
 // already emitted once (retained event), an eager subscriber to all three types, a slow
 // wildcard subscriber with room for everything; afterwards every emitter emits 2 more events
 // than the refused call asked buffer for, all bursts at the same instant. The ordinary
@@ -630,13 +640,16 @@ func enumerateRefused(t *testing.T, rt *rapid.T, name string) {
 				bufs = []int{-1} // an emitter has no buffer
 			}
 			for _, buf := range bufs {
-				for _, times := range []int{1, 3} {
+				// the call made once or three times; on a plain bus or on one built with a metrics tracer
+				for combo := 0; combo < 4; combo++ {
+					times, tracer := 1+2*(combo&1), combo&2 != 0
 					idx++
-					if !hx.Mine(idx) {
+					// scattered over the shards (see enumerateBlocked)
+					if !hx.Mine(int((uint32(idx) * 2654435761) >> 7)) {
 						continue
 					}
 					spec.Buf = buf
-					sc := &scenario{Workers: 3, Ems: []int{0, 1, 2}, PreEms: 3, PreSubs: 2, Bad: []badSpec{spec},
+					sc := &scenario{Tracer: tracer, Workers: 3, Ems: []int{0, 1, 2}, PreEms: 3, PreSubs: 2, Bad: []badSpec{spec},
 						Subs: []subSpec{{Kind: "multi", Types: []int{0, 1, 2}, Buf: 1, Eager: true}, {Kind: "wild", Buf: 16}}}
 					sc.Stateful = [nTypes]bool{stateful, stateful, stateful}
 					// the slow wildcard subscriber has room for exactly what is emitted: 3*(1+n+1) <= 16 holds for n <= 3 only;
@@ -654,13 +667,13 @@ func enumerateRefused(t *testing.T, rt *rapid.T, name string) {
 					}
 					sc.Steps = append(sc.Steps, step{GapMs: 1, Acts: burst})
 					sc.FinalBursts = []action{{K: "emit", W: 0, E: 0, N: 1}, {K: "emit", W: 1, E: 1, N: 1}, {K: "bad", B: 0}}
-					res := bubbleRun(t, rt, sc, fmt.Sprintf("refused call %v stateful=%v times=%d: ", spec, stateful, times))
+					res := bubbleRun(t, rt, sc, fmt.Sprintf("refused call %v stateful=%v times=%d tracer=%v: ", spec, stateful, times, tracer))
 					stats.CaseEnumerated(name, res.nontrivial, res.labels...)
 					if stats.WantSample(name) {
 						stats.Sample(name, map[string]any{"scenario": sc, "executed": res.trace, "labels": res.labels})
 					}
 					if res.failure != "" {
-						rt.Fatalf("refused call %v stateful=%v times=%d: %s\nexecuted: %s", spec, stateful, times, res.failure, res.trace)
+						rt.Fatalf("refused call %v stateful=%v times=%d tracer=%v: %s\nexecuted: %s", spec, stateful, times, tracer, res.failure, res.trace)
 					}
 					// the enumeration is only meaningful if the calls were made and the traffic followed
 					made, emitted := 0, false
